@@ -203,6 +203,7 @@ pub fn parse_cmd(line: &str) -> Option<Cmd> {
         "SD" => Some(Cmd::SD(hx(t.get(1)?)?)),
         "NAP" => Some(Cmd::Nap(hx(t.get(1)?)?)),
         "SF" => Some(Cmd::SF(hx(t.get(1)?)?)),
+        "SFB" => Some(Cmd::SFB(hx(t.get(1)?)?)),
         "SP16" => Some(Cmd::SetPair(hx(t.get(1)?)? as u8, a16(2)?)),
         "SWR" => Some(Cmd::SWR { which: hx(t.get(1)?)? as u8, blk: hx(t.get(2)?)?, nblk: hx(t.get(3)?)?, fmask: hx(t.get(4)?)? as u8 }),
         _ => None,
@@ -351,6 +352,7 @@ fn run_property(o: &Opts, out: &mut dyn Write) -> i32 {
         }
         cases.extend(sw);
     }
+    cases.extend(props::straddle_cases(&mut rng, prop, &o.tier));
     if std::env::var("VERIF_NO_HIST").is_err() {
         cases.extend(props::hist_for(prop, &mut rng, &o.tier));
     }
